@@ -81,10 +81,11 @@ type w1Call struct {
 	pause   *w1Pause // handler-pause schedule of this request (nil: the handler runs through), see w1_pause_test.go
 
 	// under w.mu
-	done      bool // the client-side outcome is decided
-	cancelled bool // the client gave up (ctx) before an outcome
-	respDrop  bool
-	respDelay time.Duration
+	respPending bool // the aggregator's response is on its way to the client
+	done        bool // the client-side outcome is decided
+	cancelled   bool // the client gave up (ctx) before an outcome
+	respDrop    bool
+	respDelay   time.Duration
 }
 
 type w1Client struct {
@@ -166,7 +167,7 @@ func (c *w1Client) Do(ctx context.Context, network string, address string, req *
 		}
 		key := w1AttemptKey{inst.agent, c.replica, kind, T, payload != nil && payload.hasMarker}
 		rep := w.reps[c.replica]
-		reachable := rep.up && !w.partition[inst.agent][c.replica]
+		reachable := rep.up && !rep.rpcClosed && !w.partition[inst.agent][c.replica]
 		if !reachable {
 			if req.FailIfNoConnection {
 				attempt := w.attempts[key]
@@ -345,6 +346,9 @@ func (c *w1Client) Do(ctx context.Context, network string, address string, req *
 // (live checker, test-connection loop, historic senders) are terminated here so that they neither
 // leak nor keep the fake clock busy; the others get an error and run into their closed channels.
 func (c *w1Client) deadExit(ctx context.Context, kind int) (*rpc.Response, error) {
+	if c.inst.raw { // no agent goroutines behind a raw sender: its one-shot goroutine just returns
+		return nil, rpc.ErrClientClosed
+	}
 	switch kind {
 	case w1KindKeepAlive, w1KindTest:
 		runtime.Goexit()
@@ -470,7 +474,7 @@ func (w *w1World) deliver(call *w1Call, delay time.Duration) {
 	a, r := call.inst.agent, call.replica
 	w.mu.Lock()
 	rep := w.reps[r]
-	ok := rep.up && rep.gen == call.repGen && !w.partition[a][r] && !call.inst.dead.Load()
+	ok := rep.up && !rep.rpcClosed && rep.gen == call.repGen && !w.partition[a][r] && !call.inst.dead.Load()
 	agg := rep.agg
 	w.mu.Unlock()
 	if !ok {
@@ -512,6 +516,9 @@ func (w *w1World) deliver(call *w1Call, delay time.Duration) {
 			taken = w1BucketTaken(agg, pause.bucket)
 		} else {
 			rec.where, rec.bucketTime, rec.oldest, rec.newest = w1FindLongpoll(agg, lh)
+			if rec.where == "none" && call.conn.isPending() && w1InsertsDisabled(agg) {
+				rec.where = "shutdown_hijack"
+			}
 		}
 		w.mu.Lock()
 		if !paused && rec.where == "none" && !call.conn.isPending() {
@@ -576,6 +583,7 @@ func (w *w1World) serverResponse(call *w1Call, body []byte, err error) {
 		w.recLocked(w1Rec{typ: w1RecNetDrop, agent: call.inst.agent, agentGen: call.inst.gen, replica: call.replica, kind: call.kind, T: call.T, attempt: call.attempt, note: "response"})
 	}
 	d := call.respDelay
+	call.respPending = true
 	w.mu.Unlock()
 	go func() {
 		time.Sleep(d)
